@@ -168,8 +168,27 @@ def webhook_body_lost(flow, f2):
         sorted(a, key=lambda h: (h.get("url", ""), h.get("result_name", ""))), sorted(b, key=lambda h: (h.get("url", ""), h.get("result_name", "")))))
 
 
+def reachable_nodes(flow):
+    by = {n["uuid"]: n for n in flow["nodes"]}
+    if not flow["nodes"]:
+        return set()
+    seen, todo = set(), [flow["nodes"][0]["uuid"]]
+    while todo:
+        u = todo.pop()
+        if u in seen or u not in by:
+            continue
+        seen.add(u)
+        todo += [e.get("destination_uuid") for e in by[u]["exits"] if e.get("destination_uuid")]
+    return seen
+
+
 def grouping(flow):
-    return sorted((n["uuid"], json.dumps([flowutil.canon_action(a) for a in n.get("actions", [])], sort_keys=True)) for n in flow["nodes"])
+    """node id -> actions, for the nodes that can be reached from the entry node.  A node nothing leads to has no
+    behaviour and no place in a sheet (every row hangs off an earlier row or `start`); demanding that the exporter
+    keeps it would ask more than the property states (false alarm corrected, see DESIGN 10.1)."""
+    reach = reachable_nodes(flow)
+    return sorted((n["uuid"], json.dumps([flowutil.canon_action(a) for a in n.get("actions", [])], sort_keys=True))
+                  for n in flow["nodes"] if n["uuid"] in reach)
 
 
 def ref_uuids(flow):
